@@ -628,6 +628,11 @@ func (s *Server) buildArguments(ctx context.Context, params any, method Method) 
 		}
 
 		for i, param := range paramsList {
+			// a JSON null decodes to a nil pointer, which a handler is free to dereference
+			if param == nil && !method.Params[i].Optional &&
+				handlerType.In(i+addContext).Kind() == reflect.Pointer {
+				return nil, errors.New("missing non-optional param: " + method.Params[i].Name)
+			}
 			v, err := s.parseParam(param, handlerType.In(i+addContext))
 			if err != nil {
 				return nil, err
@@ -644,6 +649,10 @@ func (s *Server) buildArguments(ctx context.Context, params any, method Method) 
 		for i, configuredParam := range method.Params {
 			var v reflect.Value
 			if param, found := paramsMap[configuredParam.Name]; found {
+				if param == nil && !configuredParam.Optional &&
+					handlerType.In(i+addContext).Kind() == reflect.Pointer {
+					return nil, errors.New("missing non-optional param: " + configuredParam.Name)
+				}
 				var err error
 				v, err = s.parseParam(param, handlerType.In(i+addContext))
 				if err != nil {
